@@ -24,6 +24,13 @@ streams:  main   the hypotheses of the reading hold (similarity reflexive + symm
                  need the violated hypothesis (size, order, mirror, copies; pairwise dissimilar / no twins
                  for symmetric similarities; all-kept-while-room for equivalences; antichain always)
           api    insert / remove (any index) / clear interleaved with updates: model == implementation
+          heap   ("heap": true; fam heap) a main-stream history replayed through the HEAP-LEVEL model
+                 (lean/DeapModel/Core/ArchiveHeap.lean: members are object graphs, insert = deepcopy): the caller's objects are
+                 mirrored into the model's heap (harness/props/c08_heap.py), the in-place modifications after every update
+                 ("mods": a random selection of [op, slot, a, b] on submitted objects - gene / inner-list edits, strategy, a new
+                 strategy object, meta, age, fitness.values = ..., del fitness.values, a new Fitness object, a re-filled genome -
+                 or, without "mods", the all-levels clobber of every submitted object) reach the model as write / alloc events,
+                 and members and keys are compared after every update AND after every round of modifications
 families: exh (all short histories of four small universes), rand, neartie (fitnesses a few 2^-40 apart),
           magnitude (values around 2^70 whose sums absorb small differences), bigbatch (populations of
           11-40 with many duplicates), wide (capacity 16-40 / Pareto fronts of >= 16 with ties on the
@@ -36,6 +43,7 @@ from fractions import Fraction as Fr
 
 from lib import Case
 from deap import base, creator, tools
+from props import c08_heap as HP
 
 ANCHORS = [("deap/tools/support.py", ["HallOfFame", "ParetoFront"])]
 LEVEL = "proof"
@@ -45,16 +53,20 @@ RULE = ("exhaustive: every history of <=3 batches of <=2 individuals from 4 univ
         "objectives, <=6 batches of <=5, empty batches, re-submission and in-place modification of submitted "
         "objects, 7 similarity operators; near-tie fitnesses (2^-40 apart), magnitudes 2^70, populations of 11-40 with "
         "duplicates, capacities 16-40 with first-objective ties; flat and nested genomes, set- and dict-based individuals, "
-        "mutable attributes; every call form of the constructors (positional / keyword similarity). "
+        "mutable attributes; every call form of the constructors (positional / keyword similarity); heap stream: 1500 (quick) histories "
+        "with in-place modifications of submitted objects at every level between the updates, replayed through the heap-level model "
+        "(list individuals flat / nested, set individuals), members as identity-free terms and keys compared after every update and after every round of modifications. "
         "Non-trivial = distinct case with at least two non-empty updates (or an api script with >= 2 events)")
 EXHAUSTIVE = {"quick": False, "thorough": True}
 TIME_BUDGET = {"quick": 55, "thorough": 840}
 MIN_CASES = 5000
 TRUSTED = ["bisect.bisect_right (C implementation) runs the loop of Lib/bisect.py that Core/Archive.lean transcribes "
            "(binary search; proved equal to the linear scan on the always-ascending key list: C08L.bisectRight_eq)",
-           "copy.deepcopy: the model represents the deep copy as an object with a fresh id and the same genome/fitness; "
-           "that the real copy has the class, genome (nested), fitness and attributes of the submitted individual and "
-           "shares no mutable state with it is established only by the oracle of this harness on every update",
+           "copy.deepcopy: in the pure model (Core/Archive.lean) the deep copy is an object with a fresh id and the same genome/fitness; in the "
+           "heap-level model (Core/ArchiveHeap.lean) it is Heap.clone, the model of copy.deepcopy with DEAP's hooks proved faithful and disjoint for C16 "
+           "(C16.clone_equal / clone_disjoint); that CPython dispatches deepcopy of the individuals used here (creator classes on list / set with a Fitness, "
+           "a class-declared list attribute, dict / list / scalar instance attributes) to those hooks is checked by the heap stream of this harness "
+           "(members compared as whole object graphs, any sharing with a caller object visible) and by C16's own correspondence",
            "the similarity callable is a pure function of the two individuals' genome and fitness",
            "IEEE-754: value*weight of the dyadic inputs used (small, near-tie 2^-40, magnitude 2^70) is exact, so the Rat "
            "model and the float implementation agree"]
@@ -65,15 +77,25 @@ ASSUMPTIONS = ["capacity m >= 1 (m = 0 raises IndexError on the first non-empty 
                "history (an individual re-evaluated in place to a better fitness and shown again is rejected as similar to its "
                "old copy) on which the clause fails without it - DEAP's documented design, not counted as a finding",
                "for the Pareto archive 'distinct' = not (equal fitness and similar); all fitnesses shown to one Pareto archive "
-               "have the same number of objectives; no NaN"]
+               "have the same number of objectives; no NaN",
+               "heap-level theorems (deep-copy clause): submitted individuals are acyclic object graphs within the recursion bound that meet the side "
+               "conditions of DEAP's copy hooks (C16 CopyOK) and carry their fitness as an instance attribute; the similarity callable is a function of "
+               "the two individuals' pure values and fitnesses; the caller holds no reference into the archive's own copies (writes go through the "
+               "caller's objects - 'changes to the populations' - not through hof[i])"]
 EXPLANATION = ("Theorems C08.* are proved for every history (list of batches), every capacity >= 1, every genome type and "
                "every linearly ordered scalar type, each clause under exactly the hypotheses it needs (SimSym / SimBase / "
                "SimHyp / equal numbers of objectives); the correspondence ties Core/Archive.lean to deap.tools.HallOfFame / "
                "ParetoFront after every update of every history explored, and the statement is evaluated on the real archive. "
-               "C08.copies_fresh / copies_frame / pf_copies are true by construction of the model (insert allocates a fresh id): "
-               "they say what 'deep copy' means in the model; the deep-copy clause of the statement rests on the oracle, which "
-               "after every update modifies every submitted object in place at every level (nested genome elements, strategy "
-               "list, meta dict, fitness, outer list) and compares class, nested genome, fitness and attributes of the members.")
+               "The deep-copy clause ('as deep copies unaffected by later changes to the populations') is proved for the heap-level "
+               "model Core/ArchiveHeap.lean, whose insert is C16's model of copy.deepcopy: C08.hof_/pf_members_fresh (members reach only "
+               "objects allocated by the archive's own deepcopy calls, or immutable ones; nothing shared with any submitted individual or "
+               "another member), C08.hof_/pf_unaffected_by_writes (no sequence of writes through the caller's objects, interleaved with "
+               "further updates, changes what a member denotes; keys are the members' own fitness objects), C08.heap_hof_/heap_pf_refines "
+               "(the heap-level archive denotes the pure archive run on the individuals as they were when shown, so every other C08 theorem "
+               "transfers: heap_hof_best_of_seen, heap_pf_exact, ...).  The heap stream ties that model to the real objects: the caller's "
+               "object graph is mirrored into the model's heap, every in-place modification reaches the model as a write, and members "
+               "(whole object graphs) and keys are compared after every update and after every round of modifications; in the other streams "
+               "the oracle modifies every submitted object at every level after every event and compares class, nested genome, fitness and attributes.")
 
 BASE = 1000000
 
@@ -434,6 +456,9 @@ def evaluate(d):
         arch = tools.HallOfFame(maxsize=m, similar=simf) if kind == "hof" else tools.ParetoFront(similar=simf)
     else:
         arch = tools.HallOfFame(m, similar=simf) if kind == "hof" else tools.ParetoFront(similar=simf)
+    heap = bool(d.get("heap"))
+    hw = HP.World(IndC) if heap else None     # heap stream: the caller's objects mirrored into the model's heap
+    mods = d.get("mods")
     objs = {}             # slot -> live Python object
     submitted = {}        # id(obj) -> obj, everything ever handed to the archive
     shown = []            # contents (genome, wvalues) shown so far
@@ -464,8 +489,10 @@ def evaluate(d):
         return o, wv
 
     after = []
-    for ev in d["ev"]:
+    for evno, ev in enumerate(d["ev"]):
         op = ev[0]
+        if heap and op != "u":
+            raise ValueError("the heap stream replays updates only")
         before = after
         try:
             if op == "u":
@@ -477,7 +504,11 @@ def evaluate(d):
                     ptoks.append(ind_token(entry[0], cg, wv))
                     shown.append((cg, wv))
                     shown_set.add((cg, wv))
-                toks.append("u=" + (";".join(ptoks) if ptoks else "-"))
+                if heap:
+                    toks.extend(hw.sync(list(objs.values())))
+                    toks.append(hw.update_token(pop))
+                else:
+                    toks.append("u=" + (";".join(ptoks) if ptoks else "-"))
                 for o in pop:
                     submitted[id(o)] = o
                 arch.update(pop)
@@ -504,7 +535,7 @@ def evaluate(d):
             if (m >= 1 or kind == "pf") and stream != "api" and orc is None:
                 orc = "update raised %s: %s" % (type(e).__name__, e)
             break
-        exp.append(state_token(arch, submitted))
+        exp.append(hw.state(arch) if heap else state_token(arch, submitted))
         after = content(arch)[0]
         # ---- oracle on the real archive
         if orc is None and stream != "api":
@@ -513,7 +544,13 @@ def evaluate(d):
             orc = copies(arch, IndC, nested, submitted)
         # deep copies: modify every submitted object in place at every level; the archive must not change
         snap = deep_snapshot(arch)
-        for o in submitted.values():
+        if mods is not None:
+            # heap stream: the modifications the case describes (any level, any subset of the submitted objects)
+            for mod in (mods[evno] if evno < len(mods) else []):
+                o = objs.get(mod[1])
+                if o is not None and id(o) in submitted:
+                    HP.apply_mod(o, mod, container, nested, fill)
+        for o in (submitted.values() if mods is None else ()):
             if container == "set":
                 o.add(-991)
             elif container == "dict":
@@ -531,6 +568,11 @@ def evaluate(d):
             o.age = -1
             o.fitness.values = tuple(-5.0 if x > 0 else 5.0 for x in o.fitness.weights)
             fill(o, container, [77, -77, 7, 7], nested)
+        if heap:
+            # the model is told what happened to the caller's objects and predicts the archive after it
+            toks.extend(hw.sync(list(objs.values())))
+            toks.append("q")
+            exp.append(hw.state(arch))
         if orc is None and deep_snapshot(arch) != snap:
             orc = "archive content changed when the submitted individuals were modified in place"
         if orc is None and stream in ("main", "viol") and op == "u":
@@ -558,7 +600,7 @@ def evaluate(d):
                 flags.add("empty-batch")
             if len(ev[1]) > 10:
                 flags.add("batch>10")
-    line = "C08 %s %d %s %s" % (kind, m, sim, " ".join(toks))
+    line = hw.line(kind, m, sim, container, toks) if heap else "C08 %s %d %s %s" % (kind, m, sim, " ".join(toks))
     tag = "%s/%s/%s/%s/%s/%s/%s" % (kind, stream, d.get("fam", "exh"), sim, container,
                                     "default" if d.get("default_sim") and sim == "eq" else ctor,
                                     "+".join(sorted(flags)) or "plain")
@@ -813,6 +855,45 @@ def gen_container(rng, kind, container):
             "default_sim": rng.random() < 0.7, "ev": ev}
 
 
+def gen_heap(rng, kind, i):
+    """heap stream: a main-stream history (the reading's hypotheses hold, whole statement as oracle) replayed through
+    the heap-level model, with in-place modifications of submitted objects at every level after every update:
+    3 of 4 cases a random selection of operations on random submitted objects (gene / inner-list edits, strategy edits,
+    a new strategy object, meta edits, scalar attribute, fitness re-assignment, fitness deletion, a new Fitness object,
+    a re-filled genome), 1 of 4 the all-levels clobber of every submitted object that the other streams apply"""
+    if i % 5 == 4:
+        d = gen_container(rng, kind, "set")          # fitness a function of the class of the *canonical* genome
+    else:
+        d = gen_random_main(rng, kind, fam=("neartie" if i % 7 == 6 else "rand"))
+        if d["sim"] == "eq":
+            d["default_sim"] = rng.random() < 0.5
+    d["fam"] = "heap"
+    d["heap"] = True
+    if i % 4 != 3:
+        seen, mods = set(), []
+        for ev in d["ev"]:
+            seen.update(e[0] for e in ev[1])
+            mods.append(HP.gen_mods(rng, len(seen)))
+        d["mods"] = mods
+    return d
+
+
+HEAP_CORNERS = [
+    # an admitted individual is re-evaluated in place (fitness.values = ...), then a newcomer is ranked against it:
+    # the archive's keys must be the copies' fitness objects
+    {"k": "hof", "m": 3, "sim": "eq", "w": ["1"], "stream": "main", "fam": "heap", "heap": True, "default_sim": True,
+     "ev": [["u", [[0, [1], ["5"]], [1, [2], ["3"]]]], ["u", []], ["u", [[2, [3], ["4"]]]]],
+     "mods": [[["fset", 0, 1, 1], ["gset", 0, 9, 0]], [], []]},
+    {"k": "pf", "m": 0, "sim": "eq", "w": ["1", "1"], "stream": "main", "fam": "heap", "heap": True, "nest": True,
+     "ev": [["u", [[0, [1, 2], ["5", "1"]], [1, [2], ["1", "5"]]]], ["u", [[2, [3], ["3", "3"]]]]],
+     "mods": [[["fset", 0, 0, 0], ["fdel", 1, 0, 0], ["refill", 0, 4, 4]], [["fnew", 2, 1, 2], ["snew", 2, 1, 2]]]},
+    # the same object shown again after its fitness object was replaced by a new one
+    {"k": "hof", "m": 2, "sim": "mod3", "w": ["-1", "2"], "stream": "main", "fam": "heap", "heap": True, "cont": "set",
+     "ev": [["u", [[0, [0, 8], ["1", "1"]]]], ["u", [[0, [1], ["0", "2"]], [1, [2, 5], ["2", "0"]]]]],
+     "mods": [[["fnew", 0, 1, 3], ["meta", 0, 2, 2], ["age", 0, 5, 0]], [["all", 0, 0, 0]]]},
+]
+
+
 def gen_random_viol(rng, kind):
     nobj = rng.choice([1, 2, 2, 3])
     w = [rand_weight(rng) for _ in range(nobj)]
@@ -892,6 +973,7 @@ def generate(tier, rng, mult):
 
 
 CTOR_FORMS = ["pos", "kw", "kwall"]
+NHEAP = 1500
 
 
 def _generate(tier, rng, mult):
@@ -899,6 +981,11 @@ def _generate(tier, rng, mult):
     for d in CORNERS:
         yield d
     scale = (10 if thorough else 1) * mult
+    # the heap stream carries the deep-copy clause (model == implementation incl. the in-place modifications): first
+    for d in HEAP_CORNERS:
+        yield d
+    for i in range(NHEAP * scale):
+        yield gen_heap(rng, "pf" if i % 3 == 2 else "hof", i)
     for i in range(300 * scale):
         yield gen_container(rng, "pf" if i % 3 == 2 else "hof", "set" if i % 2 else "dict")
     for i in range(300 * scale):
@@ -936,9 +1023,17 @@ def random_case(rng, i):
 
 def shrink(d):
     ev = d["ev"]
+    mods = d.get("mods")
+    if mods is not None:                           # heap stream: fewer in-place modifications first
+        for i in range(len(mods)):
+            for j in range(len(mods[i])):
+                yield dict(d, mods=mods[:i] + [mods[i][:j] + mods[i][j + 1:]] + mods[i + 1:])
     for i in range(len(ev)):                       # drop an event
         if len(ev) > 1:
-            yield dict(d, ev=ev[:i] + ev[i + 1:])
+            if mods is not None:
+                yield dict(d, ev=ev[:i] + ev[i + 1:], mods=mods[:i] + mods[i + 1:])
+            else:
+                yield dict(d, ev=ev[:i] + ev[i + 1:])
     for i, e in enumerate(ev):                     # drop an individual of a batch (halves first for big batches)
         if e[0] == "u":
             n = len(e[1])
